@@ -219,6 +219,12 @@ func (w *WalkEnv) install() {
 		in.Emit("write", site, a[0], a[1])
 		return Tup{E: []AVal{Sym{K: "n", T: types.Typ[types.Int]}, Cst{}}}, true
 	}
+	for _, m := range []string{"WriteByte", "WriteRune"} {
+		in.Models["(*strings.Builder)."+m] = func(in *Interp, site ssa.Instruction, cc *ssa.CallCommon, a []AVal) (AVal, bool) {
+			in.Emit("write", site, a[0], a[1])
+			return Tup{E: []AVal{Sym{K: "n", T: types.Typ[types.Int]}, Cst{}}}, true
+		}
+	}
 	in.Models["valid.GetJoinValidErrStr"] = func(in *Interp, site ssa.Instruction, cc *ssa.CallCommon, a []AVal) (AVal, bool) {
 		args := []AVal{a[0], a[1], a[2]}
 		if len(a) > 3 {
@@ -235,6 +241,17 @@ func (w *WalkEnv) install() {
 	}
 	in.Models["errors.New"] = func(in *Interp, site ssa.Instruction, cc *ssa.CallCommon, a []AVal) (AVal, bool) {
 		return Tok{Dom: "err", Name: "new", Args: a}, true // never nil
+	}
+	in.Models["fmt.Errorf"] = func(in *Interp, site ssa.Instruction, cc *ssa.CallCommon, a []AVal) (AVal, bool) {
+		args := []AVal{a[0]}
+		if len(a) > 1 {
+			if o, ok := a[1].(Slc); ok {
+				for i := o.Lo; i < o.Hi; i++ {
+					args = append(args, in.load(Ptr{C: o.Arr.Elems[i]}, nil, site))
+				}
+			}
+		}
+		return Tok{Dom: "err", Name: "new", Args: args}, true // never nil
 	}
 	retype := func(cc *ssa.CallCommon) types.Type {
 		r := cc.Signature().Results()
